@@ -114,7 +114,9 @@ pub struct Trace {
 
 pub struct C04;
 
-const PLAIN_SCALE_LIMIT: i64 = 5000;
+/// plain notation materialises every zero: exercised up to this |scale| (a 100 kB string), short values only beyond 5000
+const PLAIN_SCALE_LIMIT: i64 = 100_000;
+const PLAIN_SCALE_LIMIT_LONG_VALUES: i64 = 5000;
 /// sign, '.', 'E', exponent sign and up to 20 exponent digits: the most the exponent forms add;
 /// "0." plus 5 zeros or 15 trailing zeros are the most the plain forms add
 const DISPLAY_OVERHEAD_LIMIT: usize = 24;
@@ -408,7 +410,12 @@ impl Property for C04 {
             for _ in 1..len {
                 digits.push((b'0' + rng.below(10) as u8) as char);
             }
+            if r % 4 == 3 {
+                // 1 followed by zeros, scale exactly 0 (a round integer written out in full)
+                digits = format!("1{}", "0".repeat(len - 1));
+            }
             let scale = match r % 3 {
+                _ if r % 4 == 3 => 0,
                 0 => 0,
                 1 => rng.range(-30, len as i64 + 30),
                 _ => len as i64 + rng.range(-2, 8),
@@ -433,8 +440,11 @@ impl Property for C04 {
         let mut texts: Vec<(Op, String)> = vec![];
 
         for &op in &t.ops {
-            if op.is_plain() && t.value.scale.abs() > PLAIN_SCALE_LIMIT {
+            if op.is_plain() && (t.value.scale.abs() > PLAIN_SCALE_LIMIT || (t.value.scale.abs() > PLAIN_SCALE_LIMIT_LONG_VALUES && t.value.ndigits() > 40)) {
                 continue; // plain notation materialises every zero
+            }
+            if op.is_plain() && t.value.scale.abs() > 65_535 {
+                obs.reach("plain_scale_beyond_65535");
             }
             // ---- fault-free execution (also the recording dry run)
             let mut sink = SimSink::new(SinkSpec::Unbounded);
@@ -625,7 +635,7 @@ impl Property for C04 {
         vec![
             "default build configuration (RUST_BIGDECIMAL_* unset): Display thresholds 5 / 15".into(),
             "identity of digits and scale is not demanded of engineering notation, of Display for scale in [-15,-1], nor of plain notation for negative scale (an integer numeral cannot carry a negative scale); value equality is".into(),
-            "plain notation is exercised for |scale| <= 5000 only (it materialises every zero)".into(),
+            "plain notation is exercised for |scale| <= 100000 (<= 5000 for values longer than 40 digits): it materialises every zero".into(),
             "a sink that reports an error has refused the whole chunk (or accepted the stated prefix); the text is ASCII".into(),
             "oracle arithmetic: num-bigint (shared dependency) with harness-owned numeral parser and power-of-ten construction".into(),
         ]
@@ -642,6 +652,7 @@ impl Property for C04 {
             "display_at_leading_zero_threshold",
             "display_at_trailing_zero_threshold",
             "plain_scale_ge_digit_count",
+            "plain_scale_beyond_65535",
             "engineering_zero_padding",
             "error_propagated_to_caller",
             "sink_fail_at_transient",
